@@ -342,3 +342,21 @@ Proof.
       rewrite app_length. lia. }
     rewrite Nat.mul_succ_l. unfold label in *. lia.
 Qed.
+
+(* ---------- faithfulness notes for two arithmetic rewrites in the model ---------- *)
+
+(* from_wire_parser computes (count & 0x3F) * 256 + lo; the model writes (count - 192) * 256 + lo.
+   For a first pointer octet (192..255) the two agree. *)
+Lemma pointer_mask_equiv c : 192 <= c < 256 -> Z.land c 63 = c - 192.
+Proof.
+  intros H.
+  assert (forallb (fun k => Z.land (192 + Z.of_nat k) 63 =? Z.of_nat k) (seq 0 64) = true) as T
+    by (vm_compute; reflexivity).
+  rewrite forallb_forall in T. specialize (T (Z.to_nat (c - 192))).
+  rewrite Z2Nat.id in T by lia. replace (192 + (c - 192)) with c in T by lia.
+  apply Z.eqb_eq. apply T. apply in_seq. lia.
+Qed.
+
+(* __hash__ computes h += (h << 3) + c; the model writes h + h * 8 + c *)
+Lemma hash_shift_equiv h c : h + (Z.shiftl h 3 + c) = h + (h * 8) + c.
+Proof. rewrite Z.shiftl_mul_pow2 by lia. change (2 ^ 3) with 8. lia. Qed.
